@@ -26,7 +26,9 @@ Record Inv (c : cache) : Prop := mkInv {
   inv_size : Z.of_nat (length (cells c)) < MaxInt;
   inv_data : Forall good_pair (live_pairs (cells c) (phys c));
   inv_rng : forall i q, (i < length (cells c))%nat -> has q (cell_at (cells c) i) = true ->
-            exists r, lookup (ranges c) q = Some r /\ in_rng r i = true
+            exists r, lookup (ranges c) q = Some r /\ in_rng r i = true;
+  inv_pad : (1 <= cpad c)%nat;
+  inv_rpos : forall q r, lookup (ranges c) q = Some r -> 0 <= fst r
 }.
 
 (** relation with a specification state: same multiset of entries, same parameters *)
@@ -218,6 +220,38 @@ Proof.
     apply andb_true_iff in H. destruct H as [H _]. apply Z.eqb_eq in H.
     pose proof (range_from_some f l 0 new_range k Hk E) as H1. unfold range_of in H. simpl in H1. lia.
   - intros H. unfold range_of. rewrite range_from_none; [reflexivity|]. intros k Hk. apply H. assumption.
+Qed.
+
+(** ranges never start below location 0 *)
+Definition RP (m : list (nat * rng)) : Prop := forall q r, lookup m q = Some r -> 0 <= fst r.
+
+Lemma range_from_fst_nonneg : forall f l i r, 0 <= fst r -> 0 <= fst (range_from i f l r).
+Proof.
+  intros f l. induction l as [|cl t IH]; intros i r H; simpl; auto.
+  apply IH. destruct (f i cl); simpl; lia.
+Qed.
+
+Lemma range_of_fst_nonneg : forall f l, 0 <= fst (range_of f l).
+Proof. intros. unfold range_of. apply range_from_fst_nonneg. unfold new_range, MaxInt. simpl. lia. Qed.
+
+Lemma lookup_delete_same : forall m q, lookup (delete m q) q = None.
+Proof.
+  intros m q. induction m as [|[k r0] t IH]; simpl; auto.
+  destruct (Nat.eqb_spec k q); simpl; auto. destruct (Nat.eqb_spec k q); [lia|exact IH].
+Qed.
+
+Lemma rpos_update : forall m q0 r0, RP m -> 0 <= fst r0 -> RP (update m q0 r0).
+Proof.
+  intros m q0 r0 H H0 q r Hr. destruct (Nat.eq_dec q q0) as [->|Hne].
+  - rewrite lookup_update_same in Hr. injection Hr as <-. exact H0.
+  - rewrite lookup_update_other in Hr by assumption. eapply H; eauto.
+Qed.
+
+Lemma rpos_delete : forall m q0, RP m -> RP (delete m q0).
+Proof.
+  intros m q0 H q r Hr. destruct (Nat.eq_dec q q0) as [->|Hne].
+  - rewrite lookup_delete_same in Hr. discriminate.
+  - rewrite lookup_delete_other in Hr by assumption. eapply H; eauto.
 Qed.
 
 (** ** positions of pairs in a zipped list *)
